@@ -456,7 +456,10 @@ Definition v_entries (d : mdir) : list N := removelast (map fst (md_frags d)).
 Inductive event :=
 | EOpen (sums : list (N * name)) (rolls : list (N * bool)) (tree_max : N)
                                   (* KeyValueStore::open begins; sums: what each non-empty log
-                                     replays into; rolls: whether that apply rolls over *)
+                                     replays into; rolls: whether that apply rolls over;
+                                     tree_max: the lower bound on the first log's number that
+                                     does not come from the logs (the tree's maximum timestamp;
+                                     since /repo 58d2330 also the last flushed log's number + 1) *)
 | EStep (t : N)                   (* the next instruction of thread t *)
 | EWrite                          (* a write batch: one sequence number, one log append *)
 | EFlush (x : name) (roll : bool) (* the memtable thread rolls the memtable over and seals its log *)
